@@ -14,18 +14,18 @@ out = ["## 13. Seeded changes and which checks catch them", "",
        "re-runs every check against every change (scratch worktree + `DISCOPY_REPO`). Current result:",
        "**%d of %d caught** (%d of them only as a broken correspondence, `no-failing-input-found`)." % (caught, len(rows), nfi),
        "",
-       "The changes came in seven rounds (`Cxx-m1..3`, `-r2m*` … `-r7m*`; round 6 for ten properties only); from round 2 on each",
+       "The changes came in eight rounds (`Cxx-m1..3`, `-r2m*` … `-r8m*`; round 6 for ten properties only, round 8 with one or two changes per property and none for C07); from round 2 on each",
        "agent was told what the earlier rounds had produced and asked for something different and harder to",
        "notice (rarely used flags and calling conventions, second use of an object, state carried between",
        "calls, cross-class mixes, sizes, data types). Caught with a failing input on the FIRST run, before any",
-       "strengthening: round 1 56/60, round 2 26/40, round 3 16/40, round 4 26/40, round 5 24/40, round 6 17/20, round 7 36/40 (misses: Fortran-ordered array arguments, a quadratic step budget met only by long connected traces, a cache keyed by `==` that confuses a box with its dagger, spiders on the trivial dimension). Every miss was",
+       "strengthening: round 1 56/60, round 2 26/40, round 3 16/40, round 4 26/40, round 5 24/40, round 6 17/20, round 7 36/40 (misses: Fortran-ordered array arguments, a quadratic step budget met only by long connected traces, a cache keyed by `==` that confuses a box with its dagger, spiders on the trivial dimension), round 8 21/27 (misses: plain objects meeting rigid adjoints, empty reversed slices with a negative start, conjugation of object-dtype arrays, the tensor functor's swap of wires with different numbers of axes, the tensor-network contraction of swaps, a mixed scalar losing its flag in `subs` after `grad`). Every miss was",
        "turned into a generalised region of inputs by a follow-up (never a single pinned regression case):",
        "PRO self-adjoint types, spiral and double-leg snakes, twins, total callable box and object maps, exotic",
        "and typed wire values, chained substitutions, late-mixing circuits, custom 0..2-qubit gates, `==`-equal",
        "and identical box objects, histories (re-reading handed-out values, mutable data, caches keyed by repr,",
        "drawing twice), every box subclass with its own constructor/dagger, every numeric type of a scalar,",
        "n-ary and unbound calling conventions, batch evaluation, nested/sum/bubble boxes, cross-class tensors,",
-       "scaling families under a lowered recursion limit, memory layouts and containers of array arguments, long-trace spirals, sums of related terms, … The strengthened streams also found most of the",
+       "scaling families under a lowered recursion limit, memory layouts and containers of array arguments, long-trace spirals, sums of related terms, cross-class twins, element types of arrays, reversed slices with arbitrary bounds, the tensor-network route, … The strengthened streams also found most of the",
        "genuine defects F42–F5k listed in section 11.", "",
        "| change | property | check(s) | verdict | what it breaks |", "|---|---|---|---|---|"]
 for r in rows:
